@@ -53,6 +53,18 @@ SPECS = {
     "attend_reg_sub": dict(pre=[("regp", CAM), ("add", CAM, "camA", 9)], adv=0,
                            actors=[[("attend",)], [("regc", CAM), ("sub", CAM, (CAM,), "s3")], [("regc", VAM)]],
                            post=[("attend",), ("unsub", CAM, "s3")]),
+    # two deletes of the same object race with its update: exactly one delete succeeds, the update hits or misses as a whole
+    "del_del_upd": dict(pre=[("regp", CAM), ("regc", CAM), ("add", CAM, "camA", 5)], adv=0,
+                        actors=[[("del", CAM, 0)], [("del", CAM, 0)], [("upd", CAM, 0, "camB")]],
+                        post=[("req", CAM, (CAM,))]),
+    # providers register and deregister concurrently, an add depends on the outcome: no registration lost or resurrected
+    "regp_regp_deregp": dict(pre=[("regp", CAM), ("regc", CAM)], adv=0,
+                             actors=[[("regp", DENM)], [("regp", VAM)], [("deregp", CAM), ("add", CAM, "camA", 5)]],
+                             post=[("add", DENM, "denmA", 5), ("req", CAM, (CAM, DENM))]),
+    # two consumers subscribe while a third subscription is cancelled; a final attendance must notify exactly the survivors
+    "sub_sub_unsub": dict(pre=[("regp", CAM), ("regc", CAM), ("sub", CAM, (CAM,), "s0"), ("add", CAM, "camA", 9)], adv=0,
+                          actors=[[("sub", CAM, (CAM,), "s4")], [("sub", CAM, (CAM,), "s5")], [("unsub", CAM, "s0")]],
+                          post=[("attend",), ("unsub", CAM, "s4"), ("unsub", CAM, "s5")]),
     # update || query || maintenance
     "upd_req_trash": dict(pre=[("regp", CAM), ("regc", CAM), ("add", CAM, "camA", 5)], adv=0,
                           actors=[[("upd", CAM, 0, "camB")], [("req", CAM, (CAM,))], [("maint",)]]),
@@ -96,6 +108,8 @@ class LdmHarness:
             return w.reg_consumer(op[1])
         if k == "deregc":
             return w.dereg_consumer(op[1])
+        if k == "deregp":
+            return w.dereg_provider(op[1])
         if k == "add":
             return w.add(op[1], L.MSGS[op[2]](), op[3])
         if k == "add_nomaint":      # reference only: the insert step of a reactive add (collection is ordered separately)
